@@ -93,8 +93,9 @@ VCLAUSE(brent_1d, 40, 30000, 600000, "the start is not already within tolerance 
 		case 3: b = a + o.L * s.sign() * std::pow(10.0, s.uniform(-3, o.tmax < 1e9 ? 2.0 : 3.0)) * (o.asymmetric ? 0.0 : 1.0); c.cls("start_separation_1e-3_to_1e3"); break;
 		default: break;
 	}
-	if(a == b)
-		b = a + o.L;
+	// "initial step sizes 1e-3..1e3" of the scale: two starts closer than that see a numerically flat objective (the fuzzer found a pair 18 ulp apart)
+	if(std::fabs(a - b) < 1e-3 * o.L)
+		b = a + (b >= a ? 1 : -1) * 1e-3 * o.L * (1 + 999 * s.unit());
 	double tol = std::pow(10.0, s.uniform(-12, -3));
 	bool use_default = s.chance(0.1);
 	if(use_default)
